@@ -164,23 +164,35 @@ def _hyp_worker(args):
             raise
 
     phases = [Phase.generate]
-    st = settings(max_examples=examples, database=None, deadline=None,
-                  report_multiple_bugs=False, phases=phases,
-                  suppress_health_check=list(HealthCheck), print_blob=False)
-    wseed = (int(seed) * 1000003 + widx * 7919 + 17) % (2 ** 63)
-    test = hypothesis.seed(wseed)(st(given(check.strategy(tier))(body)))
     out = dict(failure=None, harness_error=None)
-    try:
-        test()
-    except Violation:
-        out["failure"] = fail.get("last")
-    except BaseException as e:   # harness problem, never a violation
-        if "last" in fail and isinstance(e, AssertionError):
-            out["failure"] = fail["last"]
-        else:
-            out["harness_error"] = "".join(traceback.format_exception(type(e), e, e.__traceback__))[-4000:]
-            if "last" in fail:
-                out["failure_candidate"] = fail["last"]
+    # Hypothesis remembers every explored example (its novelty tree): ~0.4 MB per 100-op history.  The
+    # budget is therefore spent in batches of BATCH examples, each a fresh run with its own derived seed.
+    BATCH = 800
+    done = 0
+    batch = 0
+    while done < examples and out["failure"] is None and out["harness_error"] is None:
+        n = min(BATCH, examples - done)
+        st = settings(max_examples=n, database=None, deadline=None,
+                      report_multiple_bugs=False, phases=phases,
+                      suppress_health_check=list(HealthCheck), print_blob=False)
+        wseed = (int(seed) * 1000003 + widx * 7919 + 17 + batch * 104729) % (2 ** 63)
+        test = hypothesis.seed(wseed)(st(given(check.strategy(tier))(body)))
+        try:
+            test()
+        except Violation:
+            out["failure"] = fail.get("last")
+        except BaseException as e:   # harness problem, never a violation
+            if "last" in fail and isinstance(e, AssertionError):
+                out["failure"] = fail["last"]
+            else:
+                out["harness_error"] = "".join(traceback.format_exception(type(e), e, e.__traceback__))[-4000:]
+                if "last" in fail:
+                    out["failure_candidate"] = fail["last"]
+        done += n
+        batch += 1
+        del test
+        import gc
+        gc.collect()
     out["stats"] = stats.to_dict()
     return out
 
@@ -389,7 +401,8 @@ def run_check(check, tier, seed):
         else:
             ctx = multiprocessing.get_context("fork")
             with ctx.Pool(nworkers) as pool:
-                results = pool.map(_hyp_worker, jobs, chunksize=1)
+                # (a worker killed by the OS would make a plain map() wait forever)
+                results = pool.map_async(_hyp_worker, jobs, chunksize=1).get(timeout=8 * 3600)
         generated = sum(r["stats"]["evaluations"] for r in results)
         extra["examples_requested"] = per * nworkers
         extra["examples_executed"] = generated
